@@ -572,6 +572,21 @@ func runC15(c *Ctx) {
 									cleared = true
 									break
 								}
+								// a helper closure that only re-assigns the variable (and never drains it) clears it as well
+								if call, isCall := ci.(ssa.CallInstruction); isCall {
+									if h := resolveCallee(call.Common()); h != nil && !drains[h] {
+										assigns := false
+										for _, hi := range fnInstrs(h) {
+											if hs, isHS := hi.(*ssa.Store); isHS && isVar(hs.Addr) {
+												assigns = true
+											}
+										}
+										if assigns {
+											cleared = true
+											break
+										}
+									}
+								}
 								if u, isU := ci.(*ssa.UnOp); isU && u.Op == token.ARROW && isTimerC(u.X) {
 									bad = u.Pos()
 									break
